@@ -59,6 +59,17 @@ fn seq_case(s: &SeqSpec) -> PResult {
     ensure_eq!(got_w.to_string(), exp_w, "windows3", "translation by windows(3) of {}", String::from_utf8_lossy(&letters));
     let got_c: Seq<AminoC> = no_panic("to_amino_panic", "translating chunks(3)", || sl.chunks(3).take(n + 2).map(|c| STANDARD.to_amino(c)).collect())?;
     ensure_eq!(got_c.to_string(), exp_c, "chunks3", "translation by chunks(3) of {}", String::from_utf8_lossy(&letters));
+    // the form in the `chunks` documentation: codons collected as owned sequences first
+    let got_o: String = no_panic("to_amino_panic", "translating owned chunks(3)", || {
+        let codons: Vec<Seq<DnaC>> = sl.chunks(3).take(n + 2).collect();
+        codons.iter().map(|c| STANDARD.to_amino(c).to_char()).collect()
+    })?;
+    ensure_eq!(got_o, exp_c, "owned_chunks3", "translation of chunks(3) collected into Vec<Seq> of {}", String::from_utf8_lossy(&letters));
+    let got_ow: String = no_panic("to_amino_panic", "translating owned windows(3)", || {
+        let codons: Vec<Seq<DnaC>> = sl.windows(3).take(n + 2).collect();
+        codons.iter().map(|c| STANDARD.to_amino(c).to_char()).collect()
+    })?;
+    ensure_eq!(got_ow, exp_w, "owned_windows3", "translation of windows(3) collected into Vec<Seq> of {}", String::from_utf8_lossy(&letters));
     // reading frames the usual way: skip(frame).step_by(3) over windows, and nth
     for frame in 0..3usize {
         let exp_f: String = if n >= 3 { letters.windows(3).skip(frame).step_by(3).map(|w| model::ncbi_translate(w) as char).collect() } else { String::new() };
